@@ -1,21 +1,13 @@
 import CTV.Props.C04
-import CTV.Lemmas.When
 /-!
 # C04, SCT lists at full strength (RFC 6962 §3.3: `SerializedSCT sct_list<1..2^16-1>`)
 
-These statements need the regenerated tag of `x509.SignedCertificateTimestampList.SCTList` to say
-`maxlen:65535`.  On the tree with `maxlen:65335` (finding F4) `tag_is_rfc` is false — which is how the
-proof attempt finds the defect — so this module is part of the check only once F4 is no longer listed as
-`known` (see driver/props/c04.py); until then `C04.enc_sctList_sound` / `C04.dec_sctList_sound` stand and
-the harness exhibits the failing lengths 65336…65535.
-
-So that the default `lake build` succeeds on every tree, the module is wrapped in `#when (sctListMax == 65535)`
-(CTV/Lemmas/When.lean): on the unchanged tree it elaborates to nothing; whenever it is an obligation the orchestrator
-demands every theorem named below from `#print axioms`, so skipping can never pass for proving.
+The regenerated tag of `x509.SignedCertificateTimestampList.SCTList` says `maxlen:65535` (`tag_is_rfc`).  Before afdaa85
+(finding F4: `maxlen:65335`) `tag_is_rfc` was false and the proof attempt showed it; the equalities are ordinary
+obligations now.
 -/
 set_option linter.unusedSimpArgs false
 
-#when (CtWire.sctListMax == 65535) =>
 namespace C04SctList
 open Tls CTV CtWire
 
@@ -48,4 +40,3 @@ example (body : Bytes) (h : body.length = 65336) : (Rfc.varVector 1 65535 body).
   simp [Rfc.varVector, h]
 
 end C04SctList
-#end_when
